@@ -69,7 +69,10 @@ ChainReasons(e) ==          \* reasons are <<why, prefix length of the offending
    (IF e.inter[mx + 1] # e.reserved THEN {<<"single-address-network-differs-from-address", mx>>} ELSE {}) \cup                        \* L2
    {<<"supernet-of-intersecting-network-does-not-intersect", p - 1>> : p \in {q \in 1..mx : e.inter[q + 1] /\ ~e.inter[q]}} \cup    \* L4
    {<<"network-contains-reserved-address-but-does-not-intersect", p>> : p \in {q \in 0..mx : e.reserved /\ ~e.inter[q + 1]}} \cup   \* L3, the code's own address answer
-   {<<"network-contains-special-purpose-block", p>> : p \in {q \in 0..mx : ~e.inter[q + 1] /\ NetTouchesNamed(Prefix(e.g, q))}}     \* L3, named blocks
+   {<<"network-contains-special-purpose-block", p>> : p \in {q \in 0..mx : ~e.inter[q + 1] /\ NetTouchesNamed(Prefix(e.g, q))}} \cup  \* L3, named blocks
+   \* the IPv4 network written in IPv4-mapped form contains the same (mapped) addresses: L3 again, L1 for what "reserved" means
+   {<<"mapped-network-contains-reserved-address-but-does-not-intersect", p>> :
+        p \in {q \in 0..mx : Len(e.interMapped) = mx + 1 /\ ~e.interMapped[q + 1] /\ (e.reserved \/ NetTouchesNamed(Prefix(e.g, q)))}}
 \* a network and an address inside it (not necessarily on the network's own chain)
 NetAddrReasons(e) == IF Contains([base |-> e.base, len |-> e.len], e.g) /\ e.addrReserved /\ ~e.intersects
                        THEN {"network-contains-reserved-address-but-does-not-intersect"} ELSE {}
